@@ -52,6 +52,7 @@ type propCfg struct {
 	testBinary bool
 	tiers      map[string]tierCfg
 	chunk      uint64 // cases per worker process invocation
+	planned    bool   // the worker computes the number of cases (-plan)
 	level      string
 	rule       string
 	real       []string
@@ -403,6 +404,29 @@ func readLines(path string) []outLine {
 	return lines
 }
 
+// queryPlan asks the worker how many cases the tier has.
+func queryPlan(p *propCfg, b *build, seed uint64, tier string) uint64 {
+	outFile := filepath.Join(b.scratch, "plan.jsonl")
+	args := []string{"-seed", strconv.FormatUint(seed, 10), "-tier", tier, "-out", outFile, "-plan"}
+	cmd := exec.Command(b.worker, workerArgs(p, args...)...)
+	cmd.Env = workerEnv(p, b)
+	cmd.Dir = b.scratch
+	out, err := cmd.CombinedOutput()
+	if err != nil {
+		cleanupGlobal()
+		die("worker -plan failed: %v\n%s", err, out)
+	}
+	for _, l := range readLines(outFile) {
+		if l.K == "plan" {
+			os.Remove(outFile)
+			return uint64(l.Cases)
+		}
+	}
+	cleanupGlobal()
+	die("worker -plan printed no plan:\n%s", out)
+	return 0
+}
+
 var harnessTrouble = regexp.MustCompile(`(?m)^(HARNESS-PANIC|worker:)`)
 
 type batch struct {
@@ -494,7 +518,11 @@ func runBatch(p *propCfg, b *build, seed uint64, tier string, total uint64, proc
 	tc := p.tiers[tier]
 	chunk := p.chunk
 	if chunk == 0 {
-		chunk = (total + uint64(procs*4) - 1) / uint64(procs*4)
+		per := uint64(procs * 4)
+		if p.planned {
+			per = uint64(procs) // each worker process rebuilds the corpus: fewer, larger chunks
+		}
+		chunk = (total + per - 1) / per
 		if chunk == 0 {
 			chunk = 1
 		}
@@ -802,7 +830,10 @@ func main() {
 	}
 
 	total := p.tiers[*tier].cases
-	if *casesFlag != 0 {
+	if p.planned {
+		total = queryPlan(p, b, seed, *tier)
+	}
+	if *casesFlag != 0 && (*casesFlag < total || !p.planned) {
 		total = *casesFlag
 	}
 
